@@ -788,7 +788,12 @@ class ExcelCompiler:
 
         if cell_range.needs_calc:
             self.log.debug(f"Evaluating: {cell_range.address}, {cell_range.python_code}")
-            if cell_range.address.is_unbounded_range:
+            if not (isinstance(cell_range, _CellRange) or
+                    cell_range.address.is_unbounded_range):
+                # a range operation which produced a single cell
+                return self._evaluate(address)
+
+            elif cell_range.address.is_unbounded_range:
                 bounded_addr = str(self.eval(cell_range))
                 data = self._evaluate_range(bounded_addr)
 
